@@ -103,6 +103,18 @@ CLAIMED['C06'] = (
     'one symbolic dimension per shard; quick tier covers seed-rotated code ranges for 16-bit spaces (ranges holding '
     'the SCSV and first GREASE values always included); the reference encoder is trusted', '5 C06')
 
+CLAIMED['C09'] = (
+    'against encoders written from the protocol documents (symcheck/refs/apps_ref.py): MySQL HandshakeV10 and SSLRequest '
+    '(both formats) with every subset of 4 capability/status bits per shard over all 25 capability bits, every character '
+    'set, connection id, packet size and short strings; MySQL packet header; TPKT/X.224 CR and CC for all reference '
+    'pairs with the type of the parsed object checked against the PDU code (and the other class rejecting it); RDP '
+    'negotiation request/response over every flag and protocol subset with the flag enum type checked; OpenVPN '
+    'control/ack/reset packets (ids, ack arrays of 0..3 entries, payload; 0..255 entries natively) incl. the variant '
+    'dispatcher and the TCP wrapper; PostgreSQL SSLRequest over all 2^64 inputs; LDAP StartTLS request/response for '
+    'every message id and result code 0..127, each rejected by the other class',
+    'flag words vary over 4 free bits per shard (the subset is picked by a symbolic index: fork-exhaustive); 64-bit '
+    'OpenVPN ids vary in their low two bytes or their top byte; the reference encoders are trusted', '5 C09')
+
 NOT_APPLICABLE = {
     'C19': 'asymptotic claim (work linear in input size for n, 2n, 4n, ...): a bounded symbolic execution fixes the '
            'input size, so a pass says nothing about growth; the total-work bound needs an amortised argument over '
